@@ -48,7 +48,7 @@ fn c02_q_rk_float() {
     rk_case(0)
 }
 #[kani::proof]
-fn c02_t_rk_float_x100() {
+fn c02_q_rk_float_x100() {
     rk_case(1)
 }
 #[kani::proof]
@@ -94,7 +94,7 @@ fn c02_t_rk_int_x100_frac() {
     kani::cover!(v == 12345, "end");
 }
 #[kani::proof]
-fn c02_t_rk_int_x100_exact() {
+fn c02_q_rk_int_x100_exact() {
     rk_case(3)
 }
 
